@@ -22,6 +22,11 @@ import (
 	"github.com/lindb/lindb/verif/internal/core"
 )
 
+type batchTime struct {
+	Batch   string  `json:"batch"`
+	Seconds float64 `json:"seconds"`
+}
+
 type batch struct {
 	kind     string
 	from, to int
@@ -64,10 +69,10 @@ func main() {
 	// store cases are the slowest per case: start them first
 	split("S", nS, c.Pick(12, 200))
 	split("SR", c.Pick(6, 60), c.Pick(6, 20))
-	split("T", nT, c.Pick(80, 2000))
+	split("T", nT, c.Pick(80, 1000))
 	split("M", nM, c.Pick(50, 1250))
 	split("VR", nVR, c.Pick(20, 300))
-	split("V", nV, c.Pick(150, 2500))
+	split("V", nV, c.Pick(150, 1000))
 
 	scratch := c.Scratch()
 	asanBin := ""
@@ -77,7 +82,7 @@ func main() {
 			perKind := map[string]int{}
 			for i := range batches {
 				perKind[batches[i].kind]++
-				if perKind[batches[i].kind]%6 == 1 {
+				if perKind[batches[i].kind]%8 == 1 {
 					batches[i].asan = true
 				}
 			}
@@ -89,6 +94,7 @@ func main() {
 		workers = 16
 	}
 	var mu sync.Mutex
+	var durations []batchTime
 	samplesByKind := map[string]bool{}
 	core.Parallel(len(batches), workers, func(i int) {
 		b := batches[i]
@@ -100,6 +106,7 @@ func main() {
 		if b.asan {
 			bin = asanBin
 		}
+		t0 := time.Now()
 		res := core.RunChild(bin, []string{c.Tier, "child", b.kind, strconv.Itoa(b.from), strconv.Itoa(b.to), dir, resFile},
 			[]string{"LOG_LEVEL=fatal", "GOMAXPROCS=2", "GOTRACEBACK=all", "ASAN_OPTIONS=detect_leaks=0"}, timeout, logFile)
 		var r rec
@@ -109,6 +116,7 @@ func main() {
 		}
 		mu.Lock()
 		defer mu.Unlock()
+		durations = append(durations, batchTime{fmt.Sprintf("%s[%d,%d) asan=%v", b.kind, b.from, b.to, b.asan), time.Since(t0).Seconds()})
 		if err != nil || !r.Done {
 			lastCase := lastCaseLine(logFile)
 			tail := res.Output
@@ -178,6 +186,11 @@ func main() {
 			c.Inconclusive("too few observations: %s", strings.Join(short, " "))
 		}
 	}
+	sort.Slice(durations, func(i, j int) bool { return durations[i].Seconds > durations[j].Seconds })
+	if len(durations) > 5 {
+		durations = durations[:5]
+	}
+	c.Set("slowest_batches", durations)
 	c.Set("batches", len(batches))
 	c.Set("asan_variant", asanBin != "")
 	c.Finish()
